@@ -207,7 +207,12 @@ func (va Validator) validate(s *specgen.Schema, v any, path string, errs *[]stri
 			return
 		}
 		if rs.Format == "date-time" {
-			if verdict, _ := judgeTime(str); verdict == MustReject {
+			// (a schema that names a Go layout of its own declares that text form)
+			if l := specgen.CanonLayout(rs.TimeFormat); l != "" && l != "time.RFC3339" {
+				if verdict, _ := judgeLayout(l, str); verdict == MustReject {
+					add("%q is not a date-time in the declared layout %s", str, rs.TimeFormat)
+				}
+			} else if verdict, _ := judgeTime(str); verdict == MustReject {
 				add("%q is not an RFC 3339 date-time", str)
 			}
 		}
